@@ -27,4 +27,15 @@ def run(ck):
         s = ck.harness_output("io-random-" + fl, rc, out, err)
         if rc == 0:
             ck.validate_trace("Trace_Golden", "Trace_Golden.cfg", tr, "io/random-dumps-" + fl, n_traces=s.get("events", 0), n_events=s.get("events", 0))
-    ck.assume("extents in the catalogue are 1..3 per axis; larger extents change only the payload length")
+    # huge fields (10^5..10^6 vectors, beyond any block or buffer size) through real files: every scalar compared by the
+    # harness (same precision bit-exact, other precision against the format's conversion, re-dump byte-identical); the stream's
+    # structure and sampled scalars at block boundaries judged by Trace_Golden!THuge
+    for fl, b in bins.items():
+        tr = ck.path("huge-%s.ndjson" % fl)
+        rc, out, err = ck.run([b, "huge", str(ck.seed), tr] + ([] if ck.quick else ["thorough"]), timeout=1500)
+        s = ck.harness_output("io-huge-" + fl, rc, out, err)
+        ck.cov["impl_checks"] += s.get("checks", 0)
+        if rc == 0:
+            ck.validate_trace("Trace_Golden", "Trace_Golden.cfg", tr, "io/huge-" + fl, n_traces=s.get("events", 0), n_events=s.get("events", 0))
+    ck.bound("largest_field_vectors", 2 ** 20 + 3 if ck.quick else 2 ** 21 + 1)
+    ck.assume("extents in the TLC-enumerated catalogue are 1..3 per axis; larger fields are covered by the random (<= 2500 cells) and huge (<= 2^21 vectors) instances")
